@@ -475,6 +475,56 @@ class Fn:
             exits = [b["bb"] for b in self.blocks if b["term"]["t"] == "return"]
         return not any(e in reach for e in exits)
 
+    def debug_only_blocks(self):
+        """Blocks reachable only through the `true` edge of a switch on a *literal* `true` written by a macro
+        expansion — the `if cfg!(debug_assertions) { .. }` wrapper of debug_assert!/debug_assert_eq!.  In a
+        release build that literal is `false` and the block does not exist; the panic censuses (which describe
+        the shipped server) skip sites inside them."""
+        if getattr(self, "_dbg_only", None) is not None:
+            return self._dbg_only
+        self.succ(0)
+        edges = []
+        defs = self.defs()
+        for blk in self.blocks:
+            t = blk["term"]
+            if t["t"] != "switch" or not t.get("exp") or t["discr"].get("k") not in ("copy", "move") or t["discr"]["pl"]["p"]:
+                continue
+            dd = defs.get(t["discr"]["pl"]["l"], [])
+            if len(dd) != 1 or dd[0][1] != "assign":
+                continue
+            rv = dd[0][2]["rv"]
+            if rv["rv"] == "use" and rv["op"].get("k") == "const" and rv["op"].get("ty") == "bool" and not rv["op"].get("path") \
+                    and (rv["op"].get("val") or {}).get("int") == 1:
+                ft = [b for v, b in t["targets"] if v == 0]
+                edges.append((blk["bb"], t["otherwise"], ft[0] if ft else None))
+        if not edges:
+            self._dbg_only = set()
+            return self._dbg_only
+        def raw_reach(start, avoid):
+            seen, st = set(), [start]
+            while st:
+                b = st.pop()
+                if b in seen or b == avoid:
+                    continue
+                seen.add(b)
+                st.extend(self._raw_succ(self.blocks[b]))
+            return seen
+        out = set()
+        for sb, tt, ft in edges:
+            if ft is None:
+                continue
+            # (the constant-switch pruner already removed the `false` edge; reason on the raw successors)
+            region = raw_reach(tt, sb) - raw_reach(ft, sb)   # cut loops at the switch itself
+            # a debug assertion is a small region that only evaluates a condition and panics: it contains a
+            # core::panicking call and no yield/return (macro-generated `if true {..}` wrappers of real code,
+            # e.g. inside tokio::select!, are not debug-only)
+            has_panic = any(self.blocks[b]["term"]["t"] == "call" and re.match(r"core::panicking::|std::rt::(begin_panic|panic_fmt)", self.blocks[b]["term"].get("callee") or "") for b in region)
+            plain = all(self.blocks[b]["term"]["t"] not in ("yield", "return") for b in region)
+            if region and len(region) <= 24 and has_panic and plain:
+                out |= region
+        self._dbg_only = out
+        return self._dbg_only
+
     def returns(self):
         return [b["bb"] for b in self.blocks if b["term"]["t"] == "return" and b["bb"] in self.reachable(0)]
 
